@@ -409,9 +409,6 @@ Qed.
 Lemma inv_reach cf s : reach cf s -> inv s.
 Proof. induction 1 as [|s l s' _ IH Hs]; [apply inv_init|exact (inv_step _ _ _ _ IH Hs)]. Qed.
 
-Lemma greach_reach cf s : greach cf s -> reach cf s.
-Proof. induction 1; [constructor|econstructor; eauto]. Qed.
-
 Lemma run_reach cf tr : forall s0 s, reach cf s0 -> run cf s0 tr = Some s -> reach cf s.
 Proof.
   induction tr as [|l tr IH]; intros s0 s R H; cbn in H; [injection H as <-; exact R|].
